@@ -242,6 +242,34 @@ theorem deleteD_acct (t : Table) (h : Nat) (hn : (t.slots.map (·.hk)).Nodup) (h
     have := sumSize_filter t.slots h s hn hf
     omega
 
+/-- superseding or deleting a version moves exactly its bytes from inuse to garbage -/
+theorem deleteD_tot (t : Table) (h : Nat) (hn : (t.slots.map (·.hk)).Nodup) (ha : t.inuse = sumSize t.slots)
+    (ht : t.inuse + t.garbage = t.off) : (t.deleteD h).inuse + (t.deleteD h).garbage = (t.deleteD h).off := by
+  rw [deleteD_off]
+  unfold deleteD delete
+  cases hf : t.find h with
+  | none => simpa using ht
+  | some s =>
+    simp only [Option.getD]
+    have := sumSize_filter t.slots h s hn hf
+    omega
+
+theorem put_garbage (t t' : Table) (h : Nat) (r : Rec) (now : Int) (hp : t.put h r now = .ok t') :
+    t'.garbage = (t.deleteD h).garbage := by
+  unfold put at hp
+  split at hp
+  · cases hp
+  · split at hp
+    · cases hp
+    · injection hp with hp; subst hp; rfl
+
+theorem putRaw_garbage (t t' : Table) (h : Nat) (r : Rec) (hp : t.putRaw h r = .ok t') :
+    t'.garbage = (t.deleteD h).garbage := by
+  unfold putRaw at hp
+  split at hp
+  · cases hp
+  · injection hp with hp; subst hp; rfl
+
 theorem put_inuse (t t' : Table) (h : Nat) (r : Rec) (now : Int) (hp : t.put h r now = .ok t') :
     t'.inuse = (t.deleteD h).inuse + r.size := by
   unfold put at hp
